@@ -178,6 +178,45 @@ theorem server_no_sig_no_success (P : Prims) (pubkeys : List Name) (cb : Key →
   obtain ⟨_, _, h1, _⟩ := server_accept P pubkeys cb algorithm keyblob none blob h
   cases h1
 
+/-! ## sequences of requests on one connection: earlier queries never widen what is accepted -/
+
+private theorem mem_truncate (l : List AuthOut) (o : AuthOut) (h : o ∈ truncateSession l) : o ∈ l := by
+  induction l with
+  | nil => cases h
+  | cons a r ih =>
+    unfold truncateSession at h
+    split at h
+    · simp at h; simp [h]
+    · simp only [List.mem_cons] at h ⊢
+      rcases h with h | h
+      · exact Or.inl h
+      · exact Or.inr (ih h)
+
+/-- any sequence of publickey requests (queries answered with PK_OK, failed attempts, signed
+    requests naming other algorithms, …): if the connection gets authenticated, then SOME request
+    of the sequence carried a signature whose blob names that very request's declared algorithm
+    (cert suffix stripped), and that algorithm is in `preferred_pubkeys` -/
+theorem session_success (pubkeys : List Name) (cb : Key → Bool) (reqs : List Req)
+    (h : AuthOut.success ∈ authSession pubkeys cb reqs) :
+    ∃ r ∈ reqs, ∃ sg, r.sig = some sg ∧ sigAlgoOf sg = stripCert r.algorithm ∧
+      stripCert r.algorithm ∈ pubkeys := by
+  unfold authSession at h
+  have h2 := mem_truncate _ _ h
+  simp only [List.mem_map] at h2
+  obtain ⟨r, hr, hout⟩ := h2
+  obtain ⟨sg, _, h1, h3, h4, _⟩ := server_accept r.P pubkeys cb r.algorithm r.keyblob r.sig r.blob hout
+  exact ⟨r, hr, sg, h1, h3, h4⟩
+
+/-- in particular with `preferred_pubkeys` = defaults minus disabled: the algorithm of the request
+    that authenticated is not a disabled one, whatever was queried before -/
+theorem session_success_enabled (defaults disabled : List Name) (cb : Key → Bool) (reqs : List Req)
+    (h : AuthOut.success ∈ authSession (filterAlgos defaults disabled) cb reqs) :
+    ∃ r ∈ reqs, ∃ sg, r.sig = some sg ∧ sigAlgoOf sg = stripCert r.algorithm ∧
+      stripCert r.algorithm ∈ defaults ∧ stripCert r.algorithm ∉ disabled := by
+  obtain ⟨r, hr, sg, h1, h2, h3⟩ := session_success _ cb reqs h
+  unfold filterAlgos at h3
+  exact ⟨r, hr, sg, h1, h2, (List.mem_filter.mp h3).1, by simpa using (List.mem_filter.mp h3).2⟩
+
 /-! ## the comparison is necessary: the code without it accepted a SHA-1 signature under rsa-sha2-512 -/
 
 private instance {ε α : Type} [DecidableEq ε] [DecidableEq α] : DecidableEq (Except ε α)
@@ -222,5 +261,12 @@ example : authPublickey sha1Only (filterAlgos defaultKeys []) (fun _ => true) rs
 /-- a disabled algorithm cannot even be declared -/
 example : authPublickey sha1Only (filterAlgos defaultKeys [sshRsa]) (fun _ => true) sshRsa [8] (some sha1Sig) [7]
     = .disconnect := by decide +kernel
+
+/-- query with an enabled algorithm (PK_OK), then a signed request declaring the DISABLED ssh-rsa for the
+    same key: the connection is dropped, not authenticated -/
+example : authSession (filterAlgos defaultKeys [sshRsa]) (fun _ => true)
+    [{ P := sha1Only, algorithm := rsa512, keyblob := [8], sig := none, blob := [7] },
+     { P := sha1Only, algorithm := sshRsa, keyblob := [8], sig := some sha1Sig, blob := [7] }]
+    = [.pkOk, .disconnect] := by decide +kernel
 
 end PV.Props.C07
